@@ -31,6 +31,9 @@ theorem gen_gapOffsetGetitem (G : C18Gaps.GapOffsetG) (index : Int) :
     C18Gaps.gapOffsetGetitem G index = (toModel G).get index :=
   C18Gen.gen_gapOffsetGetitem G index
 
+-- an object state written by hand (beyond max_pos -> total)
+example : C18Gaps.gapOffsetGetitem { store := [(1, 0)], min_pos := some 1, max_pos := 1, total := 3, invert := false } 5 = 3 := by decide
+
 /-- constructor followed by a query = the hand model's `_GapOffset(g, invert)[x]` -/
 theorem gen_gapOffset_query (g : Gaps) (invert : Bool) (x : Int) :
     C18Gaps.gapOffsetGetitem (C18Gaps.gapOffsetInit g invert) x = (GapOffset.mk' g invert).get x := by
@@ -57,6 +60,8 @@ example : C18Gaps.gapDifference [(1, 3)] [(1, 5), (4, 2)] = ([(4, 2)], [(1, 2)])
 theorem gen_subsetGapsToAlignCoords (G : C18Gaps.GapOffsetG) (sub orig : Gaps) :
     C18Gaps.subsetGapsToAlignCoords sub orig G = subsetToAlign orig (toModel G) sub [] :=
   C18Gen.gen_subsetGapsToAlignCoords G sub orig
+
+example : C18Gaps.subsetGapsToAlignCoords [(1, 2)] [(1, 3)] (C18Gaps.gapOffsetInit [(1, 3)] false) = [(4, 2)] := by decide
 
 /-- `_combined_refseq_gaps` (composition of the generated constructor, difference, coordinate conversion and update) -/
 theorem gen_combinedRefseqGaps (seq u : Gaps) (hnd : (u.map (·.1)).Nodup) :
